@@ -239,3 +239,12 @@ M("c09-crpix-reference", "C09", ("multi_tan.py", '        ref_headers["CRPIX1"] 
 M("c09-parity-not-reconciled", "C09", ("multi_tan.py", "        if image.get_parity_sign() != tile_parity_sign:\n            image.flip_parity()\n\n        for (", "        if image.get_parity_sign() != tile_parity_sign and image.height % 2:\n            image.flip_parity()\n\n        for ("))
 M("c09-fill-instead-of-update", "C09", ("multi_tan.py", "                image.update_into_maskable_buffer(basis, iy_idx, ix_idx, by_idx, bx_idx)", "                if bool(np.isnan(basis.asarray()).all()):\n                    image.fill_into_maskable_buffer(basis, iy_idx, ix_idx, by_idx, bx_idx)\n                else:\n                    b = basis._as_writeable_array()\n                    b[by_idx, bx_idx] = image.asarray()[iy_idx, ix_idx]"))
 M("c09-imin-ceil", "C09", ("multi_tan.py", "            desc.jmin = int(np.floor(desc.crymin - global_crymin))", "            desc.jmin = int(np.floor(desc.crymin - global_crymin)) + (1 if len(self._descs) > 3 and desc is self._descs[2] else 0)"))
+
+# ---- C17
+M("c17-scheme-xy-swapped", "C17", ("pyramid.py", '            self._scheme = "{1}/{3}/{3}_{2}"', '            self._scheme = "{1}/{2}/{2}_{3}"'))
+M("c17-lxy-path-swapped", "C17", ("pyramid.py", '            "L{}X{}Y{}.{}".format(level, ix, iy, format or self._default_format),', '            "L{}X{}Y{}.{}".format(level, iy, ix, format or self._default_format),'))
+M("c17-tilelevels-plus1", "C17", ("study.py", "        imgset.tile_levels = self._tile_levels\n", "        imgset.tile_levels = self._tile_levels + 1\n"))
+M("c17-filetype-default", "C17", ("builder.py", '        self.imgset.file_type = "." + pio.get_default_format()\n        self.imgset.url = pio.get_path_scheme() + self.imgset.file_type\n\n        self.place = Place()', '        self.imgset.file_type = ".png"\n        self.imgset.url = pio.get_path_scheme() + self.imgset.file_type\n\n        self.place = Place()'))
+M("c17-reuse-not-restored", "C17", ("fits_tiler.py", "                else:\n                    self._restore_builder_from_wtml()\n", ""))
+M("c17-toast-levels", "C17", ("builder.py", "        self.imgset.tile_levels = depth\n", "        self.imgset.tile_levels = max(depth, 2)\n"))
+M("c17-wwtl-url-stale", "C17", ("builder.py", '        self.imgset.file_type = "." + self.pio.get_default_format()\n        self.imgset.url = self.pio.get_path_scheme() + self.imgset.file_type\n        self.place.name = self.imgset.name', '        self.imgset.file_type = "." + self.pio.get_default_format()\n        self.place.name = self.imgset.name'))
